@@ -106,8 +106,11 @@ func (d *Decoder) Decode(into interface{}) error {
 // Top-level decode dispatch {{{
 
 func decode(p *ParagraphReader, into reflect.Value) error {
-	if into.Type().Kind() != reflect.Ptr {
+	if !into.IsValid() || into.Type().Kind() != reflect.Ptr {
 		return fmt.Errorf("Decode can only decode into a pointer!")
+	}
+	if into.IsNil() {
+		return fmt.Errorf("Decode can't decode into a nil pointer!")
 	}
 
 	switch into.Elem().Type().Kind() {
@@ -133,7 +136,17 @@ func decode(p *ParagraphReader, into reflect.Value) error {
 func decodeStruct(p Paragraph, into reflect.Value) error {
 	/* If we have a pointer, let's follow it */
 	if into.Type().Kind() == reflect.Ptr {
+		if into.IsNil() {
+			/* e.g. the elements of a []*T: make the T to decode into */
+			if !into.CanSet() {
+				return fmt.Errorf("Can't Decode into a nil pointer")
+			}
+			into.Set(reflect.New(into.Type().Elem()))
+		}
 		return decodeStruct(p, into.Elem())
+	}
+	if into.Type().Kind() != reflect.Struct {
+		return fmt.Errorf("Can't Decode into a %s", into.Type())
 	}
 
 	/* Store the Paragraph type for later use when checking Anonymous
@@ -364,8 +377,11 @@ func (d *Decoder) Signer() *openpgp.Entity {
 // is mildly discouraged.
 func UnpackFromParagraph(para Paragraph, incoming interface{}) error {
 	data := reflect.ValueOf(incoming)
-	if data.Type().Kind() != reflect.Ptr {
+	if !data.IsValid() || data.Type().Kind() != reflect.Ptr {
 		return fmt.Errorf("Can only Decode a pointer to a Struct")
+	}
+	if data.IsNil() {
+		return fmt.Errorf("Can't Decode into a nil pointer")
 	}
 	return decodeStruct(para, data.Elem())
 }
